@@ -46,8 +46,10 @@ def gen_P(rng, K):
     r = rng.random()
     if r < 0.3:
         return None
-    if r < 0.6:
+    if r < 0.52:
         return rng.choice([0.5, 2.0, 4.0, 10.0])
+    if r < 0.6:
+        return rng.choice([1e-9, 1e-7, 1e-5])          # e.g. powers in watts after a path loss
     if r < 0.72:      # very unequal powers: a weak user's dead stream is dropped by _solve_finalize
         P = [rng.choice([100.8, 230.0, 10.0, 1.0]) for _ in range(K)]
         P[rng.randrange(K)] = rng.choice([1e-4, 1e-3])
